@@ -665,6 +665,9 @@ def fwd_position(m: Model, d: Data, factorize: bool = True):
     else:
       collision_driver.collision(m, d)
 
+  if m.eq_connect_adr.size or m.eq_wld_adr.size:
+    # connect and weld rows include a Jdot * qvel term: body velocities must match the current state
+    smooth.com_vel(m, d)
   constraint.make_constraint(m, d)
 
   if sleep_enabled:
